@@ -575,13 +575,21 @@ Proof.
   - apply pubs_ok_ext. assumption.
 Qed.
 
+Definition is_conn_k (k : pkind) : bool := match k with KConn => true | _ => false end.
+
 Lemma enqueue_inv c in_cb st b k r s st' ev rc s' tr h :
   enqueue T tsend c in_cb st (fresh_pkt (Z.of_nat (length h)) b k r) s = (st', ev, rc, s') ->
+  is_conn_k k = false \/ outq st = [] ->
   Inv c (outq st) (tst st) tr h -> asks st ->
   Inv c (outq st') (tst st') (tr ++ ev) (h ++ [fresh_pkt (Z.of_nat (length h)) b k r])
   /\ rc <> RcOutOfFuel /\ asks st'.
 Proof.
-  unfold enqueue. intros H HI Ha.
+  unfold enqueue. intros H Hk HI Ha.
+  set (p := fresh_pkt (Z.of_nat (length h)) b k r) in *.
+  assert (Hq : (if is_conn p then p :: outq st else outq st ++ [p]) = outq st ++ [p]).
+  { change (is_conn p) with (is_conn_k k). destruct (is_conn_k k); [|reflexivity].
+    destruct Hk as [Hk|Hk]; [discriminate|]. rewrite Hk. reflexivity. }
+  rewrite Hq in H. clear Hq. subst p.
   apply (Inv_enqueue _ _ _ _ _ b k r) in HI.
   destruct (negb (c_ext c) && negb in_cb).
   - pose proof (loop_write_inv _ _ _ _ _ _ _ _ _ H HI) as (L1 & L2 & L3).
@@ -602,13 +610,14 @@ Record RInv (c : cfg) (r : rstate T) : Prop := mkRInv {
   ri_fuel : ~ In RcOutOfFuel (r_rcs r)
 }.
 
-Lemma step_inv c r o : RInv c r -> RInv c (step T tsend c r o).
+Lemma step_inv c r o : not_conn_op o = true \/ outq (r_st r) = [] -> RInv c r -> RInv c (step T tsend c r o).
 Proof.
-  intros [H1 H2 H3]. destruct o as [in_cb b k cbr s|s]; cbn [step].
+  intros Hok [H1 H2 H3]. destruct o as [in_cb b k cbr s|s]; cbn [step].
   - destruct (enqueue T tsend c in_cb (r_st r) _ s) as [[[st ev] rc] s'] eqn:He.
     apply (enqueue_inv _ _ _ _ _ _ _ _ _ _ _ (r_trace r)) in He as (E1 & E2 & E3); try assumption.
-    constructor; cbn; try assumption.
-    intros Hin. apply in_app_or in Hin as [Hin|[Hin|[]]]; [contradiction|congruence].
+    + constructor; cbn; try assumption.
+      intros Hin. apply in_app_or in Hin as [Hin|[Hin|[]]]; [contradiction|congruence].
+    + destruct Hok as [Hok|Hok]; [left|right; assumption]. destruct k; cbn in Hok |- *; congruence.
   - destruct (loop_write T tsend c (r_st r) s) as [[[st ev] rc] s'] eqn:He.
     pose proof (loop_write_inv _ _ _ _ _ _ _ _ _ He H1) as (E1 & E2 & E3).
     constructor; cbn; try assumption.
@@ -617,8 +626,13 @@ Proof.
     + intros Hin. apply in_app_or in Hin as [Hin|[Hin|[]]]; [contradiction|congruence].
 Qed.
 
-Lemma run_from_inv c ops : forall r, RInv c r -> RInv c (fold_left (step T tsend c) ops r).
-Proof. induction ops as [|o ops IH]; intros r H; [assumption|]. cbn [fold_left]. apply IH, step_inv, H. Qed.
+Lemma run_from_inv c ops : forallb not_conn_op ops = true ->
+  forall r, RInv c r -> RInv c (fold_left (step T tsend c) ops r).
+Proof.
+  induction ops as [|o ops IH]; intros Hok r H; [assumption|]. cbn [fold_left].
+  cbn [forallb] in Hok. apply andb_true_iff in Hok as [Ho Hops].
+  apply IH; [assumption|]. apply step_inv; [left|]; assumption.
+Qed.
 
 Lemma init_inv c t0 : TR t0 [] [] None -> RInv c (init T t0).
 Proof.
@@ -629,8 +643,12 @@ Proof.
   - intros [].
 Qed.
 
-Theorem run_inv c t0 ops : TR t0 [] [] None -> RInv c (run T tsend c t0 ops).
-Proof. intros H. unfold run. apply run_from_inv, init_inv, H. Qed.
+Theorem run_inv c t0 ops : conn_first ops = true -> TR t0 [] [] None -> RInv c (run T tsend c t0 ops).
+Proof.
+  intros Hc H. unfold run. destruct ops as [|o ops]; [apply init_inv, H|].
+  cbn [fold_left conn_first] in *. apply run_from_inv; [assumption|].
+  apply step_inv; [right; reflexivity|apply init_inv, H].
+Qed.
 
 (* ------------------------------------------------------------------ consequences, still generic *)
 Lemma q_ok_split q : q_ok q -> sent_part q ++ unsent_q q = concat (map p_bytes q).
@@ -714,8 +732,8 @@ Qed.
 
 Definition raw_RInv := RInv unit raw_TR.
 
-Lemma raw_run_inv c ops : raw_RInv c (raw_run c ops).
-Proof. apply (run_inv unit raw_send raw_TR raw_TR_none raw_send_spec). reflexivity. Qed.
+Lemma raw_run_inv c ops : conn_first ops = true -> raw_RInv c (raw_run c ops).
+Proof. intros Hc. apply (run_inv unit raw_send raw_TR raw_TR_none raw_send_spec); [assumption|reflexivity]. Qed.
 
 (* the history is determined by the operations: the i-th enqueued packet gets id i *)
 Fixpoint hist_from (n : nat) (ops : list op) : list opkt :=
@@ -750,22 +768,22 @@ Lemma run_hist T tsend c t0 ops : r_hist (run T tsend c t0 ops) = hist_of ops.
 Proof. unfold run. rewrite run_from_hist. reflexivity. Qed.
 
 (* ------------------------------------------------------------------ C06 on the raw socket *)
-Lemma raw_stream c ops :
+Lemma raw_stream c ops : conn_first ops = true ->
   wire_of (r_trace (raw_run c ops)) ++ unsent (r_st (raw_run c ops)) = concat (enq_bytes ops).
 Proof.
-  destruct (raw_run_inv c ops) as [[done HI] _ _].
+  intros Hcf. destruct (raw_run_inv c ops Hcf) as [[done HI] _ _].
   pose proof (IB_stream _ _ _ _ _ _ _ _ HI) as Hs. pose proof (ib_tr _ _ _ _ _ _ _ _ HI) as Ht.
   unfold raw_TR in Ht. unfold unsent. rewrite Ht, Hs. unfold raw_run. rewrite run_hist.
   unfold hist_of. rewrite hist_from_bytes. reflexivity.
 Qed.
 
-Lemma raw_qos0_published c ops tr1 e tr2 i :
+Lemma raw_qos0_published c ops tr1 e tr2 i : conn_first ops = true ->
   r_trace (raw_run c ops) = tr1 ++ e :: tr2 -> e = CbPublish i \/ e = SetPublished i ->
   0 <= i
   /\ (exists p, nth_error (hist_of ops) (Z.to_nat i) = Some p /\ p_kind p = KPub0 /\ p_id p = i)
   /\ wire_of tr1 = concat (firstn (S (Z.to_nat i)) (enq_bytes ops)).
 Proof.
-  intros Htr He. destruct (raw_run_inv c ops) as [[done HI] _ _].
+  intros Hcf Htr He. destruct (raw_run_inv c ops Hcf) as [[done HI] _ _].
   pose proof (ib_pubs _ _ _ _ _ _ _ _ HI) as Hp. rewrite Htr in Hp.
   apply (pubs_ok_split unit raw_TR _ _ _ _ i) in Hp; [|assumption].
   destruct Hp as (H0 & Hex & Hl & (t & Ht)). unfold raw_TR in Ht.
@@ -774,7 +792,7 @@ Proof.
   unfold hist_of. rewrite <- firstn_map, hist_from_bytes. reflexivity.
 Qed.
 
-Lemma raw_qos0_once c ops :
+Lemma raw_qos0_once c ops : conn_first ops = true ->
   let r := raw_run c ops in
   NoDup (setpub_ids (r_trace r)) /\ NoDup (cbpub_ids (r_trace r))
   /\ exists done,
@@ -783,7 +801,7 @@ Lemma raw_qos0_once c ops :
        /\ setpub_ids (r_trace r) = setpub_of c done
        /\ cbpub_ids (r_trace r) = cbpub_of c done.
 Proof.
-  cbn zeta. destruct (raw_run_inv c ops) as [[done HI] _ _].
+  intros Hcf. cbn zeta. destruct (raw_run_inv c ops Hcf) as [[done HI] _ _].
   destruct (IB_once _ _ _ _ _ _ _ _ HI) as [N1 N2]. split; [assumption|]. split; [assumption|].
   exists done. pose proof HI as [H1 H2 _ _ H5 H6 H7 _]. unfold raw_TR in H7.
   unfold raw_run in H1. rewrite run_hist in H1. rewrite H7. repeat split; assumption.
@@ -792,14 +810,35 @@ Qed.
 Lemma unsent_want_write {T} (st : wstate T) : unsent st <> [] -> want_write st = true.
 Proof. unfold unsent, want_write. destruct (outq st); [intros H; exfalso; apply H; reflexivity|reflexivity]. Qed.
 
-Lemma raw_want_write c ops :
+Lemma raw_want_write c ops : conn_first ops = true ->
   let st := r_st (raw_run c ops) in
   unsent st <> [] -> want_write st = true /\ (sock st = true -> regw st = true).
 Proof.
-  cbn zeta. intros H. split; [apply unsent_want_write; assumption|].
-  destruct (raw_run_inv c ops) as [_ Ha _]. intros Hs. apply Ha; [assumption|].
+  intros Hcf. cbn zeta. intros H. split; [apply unsent_want_write; assumption|].
+  destruct (raw_run_inv c ops Hcf) as [_ Ha _]. intros Hs. apply Ha; [assumption|].
   intros Hq. apply H. unfold unsent. rewrite Hq. reflexivity.
 Qed.
 
-Lemma raw_terminates c ops : ~ In RcOutOfFuel (r_rcs (raw_run c ops)).
-Proof. apply (raw_run_inv c ops). Qed.
+Lemma raw_terminates c ops : conn_first ops = true -> ~ In RcOutOfFuel (r_rcs (raw_run c ops)).
+Proof. intros Hcf. apply (raw_run_inv c ops Hcf). Qed.
+
+(* ------------------------------------------------------------------ without [conn_first] the stream property fails
+   (finding F-C06b): a QoS 0 PUBLISH [48;4;0;1;116;120] is queued and written first (publish() from
+   on_socket_open in direct-write mode: 3 bytes accepted, then send() returns 0), then reconnect() queues CONNECT,
+   which _packet_queue puts at the HEAD of the queue, in front of the packet whose first 3 bytes are already on
+   the wire.  The accepted bytes are neither PUBLISH ++ CONNECT nor CONNECT ++ PUBLISH. *)
+Definition refute_ops : list op :=
+  [ OEnq false [48; 4; 0; 1; 116; 120] KPub0 false [Accept 3; Accept 0];
+    OEnq false [16; 2; 0; 0] KConn false [] ].
+
+Lemma raw_stream_refuted :
+  exists c ops a b,
+    enq_bytes ops = [a; b]
+    /\ unsent (r_st (raw_run c ops)) = []
+    /\ wire_of (r_trace (raw_run c ops)) <> a ++ b
+    /\ wire_of (r_trace (raw_run c ops)) <> b ++ a
+    /\ In (SetPublished 0) (r_trace (raw_run c ops)).
+Proof.
+  exists (mkcfg false true false), refute_ops, [48; 4; 0; 1; 116; 120], [16; 2; 0; 0].
+  vm_compute. repeat split; try discriminate. repeat first [left; reflexivity | right].
+Qed.
